@@ -7,7 +7,7 @@ WT = sys.argv[3] if len(sys.argv) > 3 else "/tmp/wt"
 OUT = sys.argv[4] if len(sys.argv) > 4 else "/tmp/wt_out"
 import glob, os
 avoid = []
-for d in sorted(glob.glob(f"/verif/seeded/{pid}-m*")):
+for d in sorted(glob.glob(f"/verif/seeded/{pid}-*m*")):
     try:
         first = [l for l in open(os.path.join(d, "notes.md")).read().splitlines() if l.strip()][0]
         avoid.append(first.lstrip("# ").strip())
@@ -15,7 +15,7 @@ for d in sorted(glob.glob(f"/verif/seeded/{pid}-m*")):
         pass
 AVOID = ""
 if len(sys.argv) > 3 and avoid:
-    AVOID = "\n\nAn earlier round already produced the following changes for this property; do NOT repeat them or close variants of them - look for different mechanisms, different code locations and different triggering conditions (deeper call paths, other modules that feed this behaviour, configuration interplay, caching/state carried between calls, error paths):\n" + "\n".join("  - " + a for a in avoid)
+    AVOID = "\n\nAn earlier round already produced the following changes for this property; do NOT repeat them or close variants of them - look for different mechanisms, different code locations and different triggering conditions. Good hunting grounds: helper modules that feed this behaviour (compat.py, util.py, config.py, cli.py glue, db/base.py), state carried between calls or between CLI invocations in one process, error/exception paths, behaviour that only differs for a rarely used option or API entry point (e.g. StubIndexBuilder, `stub --diff`, `--sample-count`, `--limit`, `list-modules`, `monkeytype run -m`, custom Config subclasses), two small edits in different places that are each harmless alone, and inputs at the boundary of what the property covers:\n" + "\n".join("  - " + a for a in avoid)
 p = [json.loads(l) for l in open('/verif/properties.jsonl') if l.strip()]
 p = [x for x in p if x['id'] == pid][0]
 print(f"""You are helping to evaluate a verification effort for the Python project Instagram/MonkeyType (records runtime types via sys.setprofile, shrinks/rewrites them, stores them in SQLite, emits/applies type stubs).
